@@ -53,6 +53,10 @@ type Gen struct {
 	P    Profile
 	Step int
 	Boot int // bootstrap steps: system-contract heavy
+	// Focus: for a few steps after a configuration change (contract upgrade) traffic is biased
+	// towards the address it concerns, so that the change meets operations in flight around it
+	Focus    []byte
+	FocusTTL int
 }
 
 // Swarm perturbs a profile for one run: every weight is scaled by a factor drawn per run and a
@@ -223,6 +227,9 @@ func (g *Gen) advDest(self []byte) []byte {
 }
 
 func (g *Gen) dest(self []byte) []byte {
+	if g.FocusTTL > 0 && len(g.Focus) == 32 && !bytes.Equal(g.Focus, self) && g.R.Intn(3) != 0 {
+		return g.Focus
+	}
 	if g.chance("p:adv-dest") {
 		return g.advDest(self)
 	}
@@ -369,7 +376,7 @@ func (g *Gen) callTypeFor(caller, dst []byte) int {
 
 // attached draws an optional attached contract call.
 func (g *Gen) attached(dst []byte) [][]byte {
-	if !g.chance("p:call") {
+	if !g.chance("p:call") || g.FocusTTL > 0 && g.R.Intn(4) != 0 {
 		return nil
 	}
 	names := []string{"accept", "deposit", "f", "ESDTTransfer", "ESDTLocalMint", "callBack"}
